@@ -301,9 +301,9 @@ def report_case(rep, bld, c, res, v, state):
     aspects = [a for a, bad in (("line-validity", not vv["valid"]), ("structure", not vv["structure"]),
                                 ("decode", not vv["decode"]), ("c-syntax", not v["csyn"])) if bad]
     what = ("%s output violates the public definition (%s): %d invalid line(s) first=%s, structure=%s, decode=%s "
-            "missing=%s extra=%s; cmd: p2hex %s"
-            % (fmt, ",".join(aspects), vv["nbad"], vv["badlines"], vv["structure"], vv["decode"], vv["missing"],
-               vv["extra"], " ".join(res["cmd"])))
+            "first differing <<key, decoded, selected>>=%s keys covered/selected=%s/%s; cmd: p2hex %s"
+            % (fmt, ",".join(aspects), vv["nbad"], vv["badlines"], vv["structure"], vv["decode"], vv["firstdiff"],
+               vv["ncovered"], vv["nsel"], " ".join(res["cmd"])))
     expl = sorted((sorted(d) for d in v["explained"] if d), key=len)
     if v["model"] == "pinned" and expl:
         for d in expl[0]:
@@ -334,6 +334,7 @@ def main(tier):
     workers = min(NCPU, 6)
 
     # (M) + (G): model check the repaired model and export its case space -------------------------------
+    skip_pinned = bool(os.environ.get("VERIF_C06_SKIP_PINNED_MC"))      # development aid for mutation runs
     with Phase("P2Hex_Gen model check + case export"):
         g = tlc.must(tlc.run("P2Hex_Gen", "P2Hex_Gen.cfg" if quick else "P2Hex_GenFull.cfg", workers=workers,
                              timeout=3000, mem="8g", tags=("TR",)), "P2Hex_Gen")
@@ -341,6 +342,7 @@ def main(tier):
         raise CheckError("the repaired P2Hex model violates its invariants: %s" % g.violation[:800])
     rep.model("P2Hex_Gen(repaired model: LinesValid, Verdict, Emit, LineLen, Bank)", g)
     with Phase("P2Hex_MC pinned model"):
+      if not skip_pinned:
         pm = tlc.must(tlc.run("P2Hex_MC", "P2Hex_MCpinned.cfg", workers=workers, timeout=3000, mem="8g",
                               collect=False), "P2Hex_MC pinned")
         if pm.violation:
